@@ -75,6 +75,19 @@ func evalConst(e ast.Expr, env map[string]constant.Value) (constant.Value, bool)
 	case *ast.Ident:
 		v, ok := env[x.Name]
 		return v, ok
+	case *ast.SelectorExpr:
+		if id, ok := x.X.(*ast.Ident); ok && id.Name == "math" {
+			switch x.Sel.Name {
+			case "MaxInt8":
+				return constant.MakeInt64(127), true
+			case "MaxInt16":
+				return constant.MakeInt64(32767), true
+			case "MaxInt32":
+				return constant.MakeInt64(2147483647), true
+			case "MaxInt64":
+				return constant.MakeInt64(9223372036854775807), true
+			}
+		}
 	case *ast.ParenExpr:
 		return evalConst(x.X, env)
 	case *ast.UnaryExpr:
@@ -125,6 +138,9 @@ func intConsts(rel string) map[string]constant.Value {
 			}
 			env["iota"] = constant.MakeInt64(int64(iota_))
 			for i, n := range vs.Names {
+				if n.Name == "_" {
+					continue
+				}
 				if i < len(exprs) {
 					if v, ok := evalConst(exprs[i], env); ok && v.Kind() == constant.Int {
 						env[n.Name] = v
